@@ -211,7 +211,9 @@ impl CsdV2 {
 
     /// Returns the card capacity in 512-byte blocks
     pub fn card_capacity_blocks(&self) -> u32 {
-        (self.device_size() + 1) * 1024
+        // C_SIZE is 22 bits wide; its all-ones value encodes 2^32 blocks, one
+        // more than a u32 can hold.
+        (self.device_size() + 1).saturating_mul(1024)
     }
 }
 
